@@ -115,19 +115,21 @@ def handleRun (c : Json) : JE Json := do
   let c0 : Core St V := ⟨s0, ths, []⟩
   let (c1, ok1) := follow order c0
   let inputs := ths.map (·.2)
-  let microJ : Json :=
+  -- the micro-step run knows no interrupt: the (commuting) modifier is applied at its end
+  let microJ (modifier : Option (St → St)) : Json :=
     match (J.fieldD c "micro" Json.null).getNat? with
     | .ok seed =>
       let m := microRun seed s0 ths
-      Json.mkObj [("done", Json.bool (allDone m.core)), ("ctr", J.mkNats m.core.shared.ctr),
-                  ("seq", (m.core.shared.seq : Json))]
+      let fin := match modifier with | some f => f m.core.shared | none => m.core.shared
+      Json.mkObj [("done", Json.bool (allDone m.core)), ("ctr", J.mkNats fin.ctr),
+                  ("seq", (fin.seq : Json))]
     | .error _ => Json.null
   match J.fieldD c "resume" Json.null with
   | .null =>
     pure <| Json.mkObj [
       ("conforms", Json.bool ok1), ("ctr", J.mkNats c1.shared.ctr), ("seq", (c1.shared.seq : Json)),
       ("vals", valsOf c1 inputs c1.log), ("remaining", J.mkNats (c1.threads.map (·.1.length))),
-      ("atInt", Json.null), ("micro", microJ)]
+      ("atInt", Json.null), ("micro", microJ none)]
   | r =>
     let modifier : Option (St → St) ←
       match J.fieldD r "mod" Json.null with
@@ -147,7 +149,7 @@ def handleRun (c : Json) : JE Json := do
         ("seq", (c3.shared.seq : Json)),
         ("vals", valsOf c3 inputs (c1.log ++ c3.log)),
         ("remaining", J.mkNats (c3.threads.map (·.1.length))),
-        ("atInt", stJson c1.shared), ("micro", microJ)]
+        ("atInt", stJson c1.shared), ("micro", microJ modifier)]
 
 mutual
 partial def parseTree (j : Json) : JE GTree := do
